@@ -221,7 +221,7 @@ def Terms.depth : Terms → Nat
   | .cons t r => max (t.depth + 1) r.depth
 end
 
-/-- `MAX_TERM_DEPTH` (fix c368604: `parse_term(s, depth)` refuses `depth > MAX_TERM_DEPTH`; before it the recursive
+/-- `MAX_TERM_DEPTH` (fix d2b4b5b: `parse_term(s, depth)` refuses `depth > MAX_TERM_DEPTH`; before it the recursive
 descent exhausted the machine stack on a text nested some 50 000 levels deep — an abort, which this model cannot
 exhibit) -/
 def MAX_TERM_DEPTH : Nat := 32
